@@ -275,10 +275,13 @@ End Fold.
 Lemma run_foldf cap fs : run cap fs = foldf cap fs init.
 Proof. reflexivity. Qed.
 
+Lemma yielded_rev s : yielded s = rev (out_rev s).
+Proof. unfold yielded, rev'. symmetry. apply rev_alt. Qed.
+
 (* never_exceeds *)
 Lemma never_exceeds cap fs : total (fst (stream cap fs)) <= cap.
 Proof.
-  unfold stream. cbn [fst]. unfold yielded. rewrite total_rev, run_foldf.
+  unfold stream. cbn [fst]. rewrite yielded_rev, total_rev, run_foldf.
   destruct (foldf_inv cap fs init (inv_init cap)) as [H1 H2]. lia.
 Qed.
 
@@ -294,7 +297,7 @@ Proof. apply never_exceeds. Qed.
 Lemma prefix_mono cap fs k :
   exists more, fst (stream cap fs) = fst (stream cap (firstn k fs)) ++ more.
 Proof.
-  unfold stream; cbn [fst]; unfold yielded. rewrite !run_foldf.
+  unfold stream; cbn [fst]; rewrite !yielded_rev, !run_foldf.
   replace (foldf cap fs init) with (foldf cap (firstn k fs ++ skipn k fs) init)
     by (rewrite firstn_skipn; reflexivity).
   rewrite foldf_app.
@@ -307,7 +310,7 @@ Qed.
 Lemma yielded_prefix cap fs :
   exists rest, data_frames fs = fst (stream cap fs) ++ rest.
 Proof.
-  unfold stream; cbn [fst]; unfold yielded. rewrite run_foldf.
+  unfold stream; cbn [fst]; rewrite yielded_rev, run_foldf.
   destruct (foldf_prefix cap fs init) as (ys & zs & H1 & H2).
   exists zs. rewrite H1. cbn [init out_rev]. rewrite app_nil_r, rev_involutive. exact H2.
 Qed.
@@ -319,7 +322,7 @@ Proof.
   intros He Hf. unfold stream. rewrite run_foldf.
   destruct (foldf_noerr cap fs init eq_refl (N.le_0_l _) He) as (Ha & _ & _).
   destruct Ha as (Hp & Ho & _); [cbn [init bytes_read]; lia|].
-  unfold yielded, finish. rewrite Hp, Ho. cbn [init out_rev].
+  rewrite yielded_rev. unfold finish. rewrite Hp, Ho. cbn [init out_rev].
   rewrite app_nil_r, rev_involutive. reflexivity.
 Qed.
 
@@ -487,7 +490,7 @@ Proof.
                   St PDrain (total ys) (rev ys) (polled (foldf cap (map FData ys) init) + 1)).
     { unfold step, step_with. rewrite Hp, Hbr, Ht, Ho. reflexivity. }
     rewrite foldf_cons, foldf_nil, Hst.
-    unfold yielded, finish. cbn [out_rev ph]. rewrite rev_involutive.
+    rewrite yielded_rev. unfold finish. cbn [out_rev ph]. rewrite rev_involutive.
     rewrite (surjective_pairing (stream cap fs)). fold ys.
     rewrite (stream_over cap fs He Hf). reflexivity.
 Qed.
